@@ -1,6 +1,6 @@
 """C01 -- every reported solution satisfies every posted constraint (engine half: every constraint is executed
 on the final tuple before 'solved' is reported, and the reported vector is the one the constraints saw)."""
-from ..rules import engine, model, optimize, process, propagators, search
+from ..rules import branching, engine, model, optimize, process, propagators, search
 
 EXPLANATION = (
     "Static analysis, no execution: the engine half of 'reported => satisfies'. Abstract interpretation (affine forms, path-sensitive, loops summarised) of pop_propagator, bound_consistency_algorithm (both dispatch modes), solve_one, is_solved, get_solution, decrease_max/increase_min, reset, Problem.init and the multiprocessing parent decides: 'solved' is returned only after the queue scan found no flagged propagator (incl. the one it skips) and is_solved compared MIN/MAX of all shared domains at the current level; a vector is returned only under PROBLEM_BOUND and equals stack[top, dom_indices, MIN] + dom_offsets; every write-back store is a strict tightening with an emptiness test, is announced with exactly the bits of the stored bounds and GROUND when the stored domain may be a single value; the wake-up table joins the events of variables sharing a domain; each filtering function's bound dependences are covered by its declared triggers; the enabled flags are cleared only for the propagator that answered PROP_ENTAILMENT at the level current at entry; no function outside the protocol writes the domain stack; the parent forwards exactly what a worker sent. Does not decide what a constraint answers when executed (C06)."
@@ -21,5 +21,6 @@ def check(ctx, prog):
     optimize.rule_reset(ctx, prog)
     process.rule_marker_parent(ctx, prog)
     engine.rule_wakeup(ctx, prog)
+    branching.check_value_heuristics(ctx, prog)  # scope: R-BRANCH-EVENTS (a decision whose moved bounds are not announced leaves watchers asleep)
     propagators.rule_enforce_entail(ctx, prog)
     engine.rule_queue_writers(ctx, prog, thorough=thorough)
